@@ -42,7 +42,13 @@ pub fn close_flow(
         return Err(ContractError::UnauthorizedFlowClose { flow_identifier });
     }
 
-    let amount_to_return = flow.flow_asset.amount.saturating_sub(flow.claimed_amount);
+    // the funded amount is the flow asset amount plus its expansions, i.e. the cumulative amount
+    // recorded by the latest expansion if the flow was ever expanded
+    let funded_amount = match flow.asset_history.last_key_value() {
+        Some((_, (expanded_amount, _))) => *expanded_amount,
+        None => flow.flow_asset.amount,
+    };
+    let amount_to_return = funded_amount.saturating_sub(flow.claimed_amount);
 
     // return the flow assets available, i.e. the ones that haven't been claimed
     let messages: Vec<CosmosMsg> = vec![match flow.flow_asset.info {
